@@ -1,6 +1,7 @@
 package engine
 
 import (
+	"os"
 	"go/token"
 	"fmt"
 	"go/constant"
@@ -254,7 +255,7 @@ func (env *SpecEnv) evalLazy(e Expr) specVal {
 			bv := c.BoundVar(b.Name, s)
 			bound = append(bound, bv)
 			ne.vars[b.Name] = specVal{v: leaf(bv), t: t}
-			if t != nil && s == SRef {
+			if t != nil && s == SRef && os.Getenv("GOVC_NO_BINDERPTR") == "" {
 				// a binder of pointer type ranges over pointers of that type: its instances and skolem constants are typed
 				// (a *T cannot point into a backing array whose element type cannot contain a T)
 				if pt, ok := t.Underlying().(*types.Pointer); ok {
@@ -621,7 +622,7 @@ func (env *SpecEnv) evalCall(x *ECall) specVal {
 			if env.old != nil {
 				bound = env.old.st.alloc
 			}
-			if env.calleePost && env.old != nil {
+			if env.calleePost && env.old != nil && os.Getenv("GOVC_NO_FRESHUB") == "" {
 				return specVal{v: leaf(c.And(c.Neq(v, c.Nil()), c.Ge(c.Root(v), bound), c.Lt(c.Root(v), env.st.alloc), c.Eq(c.PathOf(v), c.PNil()))), t: types.Typ[types.Bool]}
 			}
 			return specVal{v: leaf(c.And(c.Neq(v, c.Nil()), c.Ge(c.Root(v), bound), c.Eq(c.PathOf(v), c.PNil()))), t: types.Typ[types.Bool]}
@@ -634,7 +635,7 @@ func (env *SpecEnv) evalCall(x *ECall) specVal {
 			if env.old != nil {
 				bound = env.old.st.alloc
 			}
-			if env.calleePost && env.old != nil {
+			if env.calleePost && env.old != nil && os.Getenv("GOVC_NO_FRESHUB") == "" {
 				return specVal{v: leaf(c.And(c.Ge(c.Root(v), bound), c.Lt(c.Root(v), env.st.alloc))), t: types.Typ[types.Bool]}
 			}
 			return specVal{v: leaf(c.Ge(c.Root(v), bound)), t: types.Typ[types.Bool]}
